@@ -36,6 +36,9 @@ class Check(PropertyCheck):
 
     def generate(self, rng, n, tier):
         for i in range(n):
+            if i % 30 == 11:
+                yield Scenario(["new", f"mark presolve {rng.randint(0, 10**6)}"], {"family": "presolve", "accepted": 3, "kind": "solve", "ops": 6})
+                continue
             if i == 3:
                 yield Scenario(["new", f"mark float32 {rng.randint(0, 10**6)}"], {"family": "float32", "accepted": 3, "kind": "solve", "ops": 6})
                 continue
@@ -241,6 +244,36 @@ class Check(PropertyCheck):
                          f"{base + 1} > {base}), the observer-based rule selects operation {b.operation_id} (both are {float(base)} in float32: "
                          f"the first one wins)")]
             return []
+        if line.startswith("mark presolve"):
+            # the documented second argument: `solve(instance, dispatcher)` on a dispatcher the caller prepared - fresh, or already
+            # some steps into an episode (operations still running): the solver finishes THAT episode
+            import jsl as _jsl
+            from impl import build_instance
+            from job_shop_lib.dispatching.rules import DispatchingRuleSolver
+            r = random.Random(int(line.split()[2]))
+            _, jobs_ = gen.gen_instance(r, r.choice(["classic", "irregular", "recirc", "flexible", "ties"]), max_jobs=4, max_machines=3, max_ops=3)
+            jobs_ = [[(ms, max(1, dd)) for ms, dd in job] for job in jobs_]
+            inst_ = build_instance(jobs_)
+            rule = r.choice(["most_work_remaining", "shortest_processing_time", "first_come_first_served", "most_operations_remaining"])
+            solver = DispatchingRuleSolver(dispatching_rule=rule, machine_chooser=r.choice(["first", "random"]))
+            d_ = _jsl.Dispatcher(inst_, ready_operations_filter=solver.ready_operations_filter)
+            k = r.randint(0, max(0, gen.num_ops(jobs_) - 1))
+            try:
+                for _ in range(k):
+                    solver.step(d_)
+                before = [[(x.operation.operation_id, x.start_time, x.machine_id) for x in ms] for ms in d_.schedule.schedule]
+                sched = solver.solve(inst_, d_)
+            except Exception as e:  # pylint: disable=broad-except
+                return [("solve-raised", f"solve(instance, dispatcher) on a dispatcher {k} steps into its episode (rule {rule}) raised {e!r} "
+                         f"(instance {jobs_})")]
+            out_ = []
+            if not sched.is_complete() or oracles.feasible(inst_, sched.schedule):
+                out_.append(("incomplete", f"solve(instance, dispatcher) after {k} prepared steps: complete={sched.is_complete()}, "
+                             f"problems {oracles.feasible(inst_, sched.schedule)[:2]}"))
+            after = [[(x.operation.operation_id, x.start_time, x.machine_id) for x in ms] for ms in sched.schedule]
+            if any(a[:len(b)] != b for a, b in zip(after, before)):
+                out_.append(("prefix-changed", "solve(instance, dispatcher) changed what the prepared dispatcher had already scheduled"))
+            return out_
         if line.startswith("mark gcloop"):
             return self.gc_loop_oracle(int(ts[2]))
         if ts[0] == "rule":
